@@ -45,6 +45,10 @@ def gen(rng, tier):
                 cases.append({"role": "arg-none", "defined": list(subset), "depth": depth})
     # ONE Environment object handed to several calls as env=, each with its own extra_namespace (or none): every
     # call sees its own extra_namespace only (decided by the oracle; the model's calls have no shared object)
+    # names with characters that Unicode normalisation would rewrite (x\u00b2 -> x2, micro sign -> Greek mu): the name
+    # written in the formula is the name that is looked up (decided by the oracle; the model reads ASCII)
+    for which in ("both-columns", "column-and-extra", "unbound", "callee"):
+        cases.append({"role": "unicode-name", "defined": [], "depth": 0, "which": which})
     for steps in ([5.0, 6.0], [5.0, None], [None, 5.0, None], [5.0, 6.0, 7.0, None], [7.0, 7.0, None, 6.0]):
         cases.append({"role": "env-object", "defined": [], "depth": 0, "steps": steps})
     return cases
@@ -63,7 +67,7 @@ def nontrivial(c, mo, obs):
 
 
 def _name(c):
-    return {"kwarg-index": "index", "env-object": "nm", "arg": "nm", "callee": "nm", "dotted": "mod", "bq": "my nm", "arg-none": "nm", "kwarg": "nm",
+    return {"unicode-name": "nm", "kwarg-index": "index", "env-object": "nm", "arg": "nm", "callee": "nm", "dotted": "mod", "bq": "my nm", "arg-none": "nm", "kwarg": "nm",
             "nested": "nm", "dotted2": "mod", "dotted3": "mod", "kwarg-same": "nm", "enc": "Sum", "callee-py": "round"}[c["role"]]
 
 
@@ -110,9 +114,41 @@ def _run_envobject(c):
     return caller()
 
 
+def _run_unicode(c):
+    import numpy as np
+    import pandas as pd
+    from formulae import design_matrices
+    n = 4
+    y = np.arange(n, dtype=float)
+    ident = (lambda v: np.asarray(v, dtype=float))
+    w = c["which"]
+    if w == "both-columns":
+        df = pd.DataFrame({"y": y, "x\u00b2": [25.0, 36.0, 49.0, 64.0], "x2": [5.0, 6.0, 7.0, 8.0]})
+        d = design_matrices("y ~ ident(x\u00b2)", df, extra_namespace={"ident": ident})
+        return [float(v) for v in np.asarray(d.common["ident(x\u00b2)"]).reshape(-1)]
+    if w == "column-and-extra":
+        df = pd.DataFrame({"y": y, "\u00b5": [10.0, 20.0, 30.0, 40.0]})
+        d = design_matrices("y ~ ident(\u00b5)", df, extra_namespace={"ident": ident, "\u03bc": np.array([-1.0, -2.0, -3.0, -4.0])})
+        return [float(v) for v in np.asarray(d.common["ident(\u00b5)"]).reshape(-1)]
+    if w == "callee":
+        df = pd.DataFrame({"y": y, "x": [1.0, 2.0, 3.0, 4.0]})
+        d = design_matrices("y ~ f\u00b2(x)", df, extra_namespace={"f\u00b2": (lambda v: v * 2), "f2": (lambda v: v * 3)})
+        return [float(v) for v in np.asarray(d.common["f\u00b2(x)"]).reshape(-1)]
+    df = pd.DataFrame({"y": y, "x": [1.0, 2.0, 3.0, 4.0]})
+    try:
+        design_matrices("y ~ ident(x\u00b2)", df, extra_namespace={"ident": ident, "x2": np.ones(n)})
+    except KeyError:
+        return "Key"
+    return "resolved"
+
+
+UNICODE_WANT = {"both-columns": [25.0, 36.0, 49.0, 64.0], "column-and-extra": [10.0, 20.0, 30.0, 40.0], "unbound": "Key",
+                "callee": [2.0, 4.0, 6.0, 8.0]}
+
+
 def model_cmd(c):
     import core
-    if c["role"] == "env-object":
+    if c["role"] in ("env-object", "unicode-name"):
         c = {"role": "callee", "defined": [], "depth": 0}   # placeholder: the comparison is skipped
     name = _name(c)
     d = c["defined"]
@@ -258,6 +294,11 @@ def _run(c):
 
 
 def impl_obs(c):
+    if c["role"] == "unicode-name":
+        try:
+            return ["ok", _run_unicode(c)]
+        except Exception as e:  # noqa
+            return ["err", type(e).__name__, str(e)[:60]]
     if c["role"] == "env-object":
         try:
             return ["ok", _run_envobject(c)]
@@ -274,7 +315,7 @@ def impl_obs(c):
 
 
 def compare(c, mo, obs):
-    if c["role"] == "env-object":
+    if c["role"] in ("env-object", "unicode-name"):
         return None
     if mo[0] != obs[0]:
         return f"{c}: model {mo} implementation {obs}"
@@ -287,6 +328,12 @@ def compare(c, mo, obs):
 
 def oracle(c):
     got = impl_obs(c)
+    if c["role"] == "unicode-name":
+        want = UNICODE_WANT[c["which"]]
+        if got[0] != "ok" or got[1] != want:
+            return (f"{c}: the name written in the formula (with a character Unicode normalisation would rewrite) resolved "
+                    f"to {got[1:]}, the binding of exactly that name gives {want}")
+        return None
     if c["role"] == "env-object":
         want = ["Key" if s_ is None else float(s_) for s_ in c["steps"]]
         if got[0] != "ok":
